@@ -27,6 +27,15 @@ type SPacket struct {
 	Payload []byte `json:"payload,omitempty"`
 	// HasData forces a Data entry even when Payload is empty (zero-length chunk class)
 	HasData bool `json:"has_data,omitempty"`
+	// Earlier: capture positions of the fragments a reassembled packet was put together from before the one
+	// (File, Index) that completed it
+	Earlier []SPos `json:"earlier,omitempty"`
+}
+
+// SPos is a capture position.
+type SPos struct {
+	File  string `json:"file"`
+	Index uint64 `json:"index"`
 }
 
 // SRec is the model of one stored stream version.
@@ -85,6 +94,10 @@ func (r *SRec) ToStream(infos PcapInfos) *streams.Stream {
 	}
 	for i, p := range r.Packets {
 		ci := gopacket.CaptureInfo{Timestamp: time.UnixMicro(p.TimeUS), CaptureLength: len(p.Payload), Length: len(p.Payload)}
+		// like the importer: the positions of the earlier fragments first, the completing one last
+		for _, e := range p.Earlier {
+			pcapmetadata.AddPcapMetadata(&ci, infos.get(e.File), e.Index)
+		}
 		pcapmetadata.AddPcapMetadata(&ci, infos.get(p.File), p.Index)
 		s.Packets = append(s.Packets, ci)
 		d := reassembly.TCPDirClientToServer
@@ -152,7 +165,12 @@ func (r *SRec) Expected() *Observed {
 	o.FirstUS = r.Packets[0].TimeUS
 	o.LastUS = r.Packets[len(r.Packets)-1].TimeUS
 	for _, p := range r.Packets {
+		// one record per position: the completing fragment first (it identifies the packet), then the earlier ones,
+		// latest first
 		o.PacketRefs = append(o.PacketRefs, fmt.Sprintf("%s#%d/%d", p.File, p.Index, p.Dir))
+		for i := len(p.Earlier) - 1; i >= 0; i-- {
+			o.PacketRefs = append(o.PacketRefs, fmt.Sprintf("%s#%d/%d", p.Earlier[i].File, p.Earlier[i].Index, p.Dir))
+		}
 		if len(p.Payload) == 0 {
 			continue
 		}
